@@ -218,7 +218,11 @@ func projectColumns(selectList sql.SelectList, qfields storage.Fields, rows []*s
 			case sql.Average:
 				// set initial value used for subsequent aggregation step
 				idx := lookup[elem.ValueExpression.(sql.ColumnReference)]
-				newVals = append(newVals, row.Vals[idx].(int64))
+				val, isInt := row.Vals[idx].(int64)
+				if !isInt {
+					return nil, fmt.Errorf("%w: avg() requires integer values, got %v", ErrIncompatTypeCompare, row.Vals[idx])
+				}
+				newVals = append(newVals, val)
 			case sql.Count:
 				// set initial value used for subsequent aggregation step
 				count := int64(0)
@@ -428,6 +432,17 @@ func sortColumns(ssl []sql.SortSpecification, qfields storage.Fields, rows []*st
 		sortIdxs = append(sortIdxs, idx)
 	}
 
+	// the comparator below can only order values of one and the same type
+	if len(rows) > 1 {
+		for _, fieldIdx := range sortIdxs {
+			for _, row := range rows {
+				if !sameSortType(rows[0].Vals[fieldIdx], row.Vals[fieldIdx]) {
+					return newErrIncompatTypeCompare(rows[0].Vals[fieldIdx], row.Vals[fieldIdx])
+				}
+			}
+		}
+	}
+
 	sort.Slice(rows, func(i, j int) bool {
 		for sortIdx, fieldIdx := range sortIdxs {
 			lhs := rows[i].Vals[fieldIdx]
@@ -460,6 +475,23 @@ func sortColumns(ssl []sql.SortSpecification, qfields storage.Fields, rows []*st
 	})
 
 	return nil
+}
+
+// sameSortType reports whether a and b are both integers, both strings or
+// both booleans (NULLs and other values cannot be ordered).
+func sameSortType(a, b interface{}) bool {
+	switch a.(type) {
+	case int64:
+		_, ok := b.(int64)
+		return ok
+	case string:
+		_, ok := b.(string)
+		return ok
+	case bool:
+		_, ok := b.(bool)
+		return ok
+	}
+	return false
 }
 
 func filterRows(q sql.WhereClause, qfields storage.Fields, rows []*storage.Row) ([]*storage.Row, error) {
